@@ -290,6 +290,61 @@ fn judge_cmplx(st: &mut Stats, rng: &mut Rng, class: &str, d: &DM<CRat>, m1: usi
     if n >= 2 { st.nontrivial(h); }
 }
 
+/// One live Banded<Rat> object put through a random sequence of queries (det, solve, product, element reads) and
+/// in-place mutators (index writes, every compound assignment, fill_band), compared with a dense model after each step:
+/// state carried from one call to the next (cached factorisations, stale buffers) must never show.
+fn history_case(st: &mut Stats, rng: &mut Rng) {
+    st.next_case();
+    let n = rng.usize(1, 7);
+    let (m1, m2) = (rng.usize(0, n - 1), rng.usize(0, n - 1));
+    let cls = rng.usize(0, 1);
+    let mut d = gen_band(rng, n, m1, m2, cls);
+    let mut b = build(&d, m1, m2, Rat::int(rng.int(-9, 9)));
+    let mut log: Vec<String> = vec![format!("start n={} m1={} m2={} dense={}", n, m1, m2, d.show())];
+    let steps = rng.usize(3, 14);
+    for _ in 0..steps {
+        let op = rng.below(12);
+        let c = Rat::int(rng.nzint(5));
+        let name: String;
+        let upd = |d: &mut DM<Rat>, f: &dyn Fn(Rat) -> Rat| { for i in 0..n { for j in 0..n { if inband(i, j, m1, m2) { d.a[i][j] = f(d.a[i][j]); } } } };
+        match op {
+            0 | 1 => { // det
+                name = "det()".into();
+                if let Outcome::Ok((det, _, _)) = catch(|| exact_det_rank_inv(&d)) {
+                    st.eval();
+                    match catch(|| b.det()) { Outcome::Ok(x) => if x != det { st.violation("C04:history:det:stale-or-wrong", format!("det = {:?} expected {:?} after {:?}", x, det, log)); return; }, Outcome::Overflow => return, o => { st.violation("C04:history:det:panic", format!("{} after {:?}", o.describe(), log)); return; } }
+                }
+            }
+            2 | 3 => { // solve
+                name = "solve(rhs)".into();
+                if let Outcome::Ok((det, _, Some(inv))) = catch(|| exact_det_rank_inv(&d)) {
+                    let rhs: Vec<Rat> = (0..n).map(|_| Rat::int(rng.int(-9, 9))).collect();
+                    if let Outcome::Ok(xt) = catch(|| inv.mulvec(&rhs)) {
+                        st.eval();
+                        match catch(|| b.solve(&vec_to_ohsl(&rhs))) { Outcome::Ok(x) => if x.vec != xt { st.violation("C04:history:solve:stale-or-wrong", format!("solve = {:?} expected {:?} (det {:?}) rhs={:?} after {:?}", x.vec, xt, det, rhs, log)); return; }, Outcome::Overflow => return, o => { st.violation("C04:history:solve:panic", format!("{} after {:?}", o.describe(), log)); return; } }
+                    }
+                }
+            }
+            4 => { name = "mulvec".into(); let v: Vec<Rat> = (0..n).map(|_| Rat::int(rng.int(-9, 9))).collect(); st.eval(); match catch(|| &b * &vec_to_ohsl(&v)) { Outcome::Ok(p) => if p.vec != d.mulvec(&v) { st.violation("C04:history:mulvec:wrong", format!("after {:?}", log)); return; }, Outcome::Overflow => return, o => { st.violation("C04:history:mulvec:panic", format!("{} after {:?}", o.describe(), log)); return; } } }
+            5 => { let (i, j) = loop { let (i, j) = (rng.usize(0, n - 1), rng.usize(0, n - 1)); if inband(i, j, m1, m2) { break (i, j); } }; name = format!("[({},{})] = {:?}", i, j, c); d.a[i][j] = c; if !catch(|| b[(i, j)] = c).is_ok() { st.violation("C04:history:index_mut:panic", format!("{} after {:?}", name, log)); return; } }
+            6 => { name = format!("+= {:?}", c); upd(&mut d, &|x| x + c); if !catch(|| b += c).is_ok() { return; } }
+            7 => { name = format!("-= {:?}", c); upd(&mut d, &|x| x - c); if !catch(|| b -= c).is_ok() { return; } }
+            8 => { name = format!("*= {:?}", c); upd(&mut d, &|x| x * c); if !catch(|| b *= c).is_ok() { return; } }
+            9 => { name = format!("/= {:?}", c); upd(&mut d, &|x| x / c); if !catch(|| b /= c).is_ok() { return; } }
+            10 => { let o = gen_band(rng, n, m1, m2, 1); let ob = build(&o, m1, m2, Rat::int(3)); let plus = rng.bool(); name = format!("{} {}", if plus { "+= &B" } else { "-= &B" }, o.show());
+                for i in 0..n { for j in 0..n { if inband(i, j, m1, m2) { d.a[i][j] = if plus { d.a[i][j] + o.a[i][j] } else { d.a[i][j] - o.a[i][j] }; } } }
+                if !catch(|| if plus { b += &ob } else { b -= &ob }).is_ok() { return; } }
+            _ => { let band = rng.int(-(m1 as i64), m2 as i64) as isize; name = format!("fill_band({},{:?})", band, c); for i in 0..n { for j in 0..n { if j as isize - i as isize == band { d.a[i][j] = c; } } } if !catch(|| b.fill_band(band, c)).is_ok() { st.violation("C04:history:fill_band:panic", format!("{} after {:?}", name, log)); return; } }
+        }
+        log.push(name);
+        st.eval();
+        if !band_eq(&b, &d, m1, m2) { st.violation("C04:history:entries-differ-from-model", format!("after {:?}", log)); return; }
+    }
+    st.count("histories");
+    st.nontrivial(hmix(hash_str("c04-history"), rng.u64()));
+    if log.len() > 6 { st.sample(|| format!("history {:?}", log)); }
+}
+
 pub fn triples() -> Vec<(usize, usize, usize)> {
     let mut t = vec![];
     for n in 1..=10usize { for m1 in 0..n { for m2 in 0..n { t.push((n, m1, m2)); } } }
@@ -312,10 +367,12 @@ pub fn run(ctx: &Ctx) -> Report {
             judge_exact::<CRat>(st, rng, CLASSES[class], &dc, m1, m2, padc, |r| CRat::new(Rat::int(r.int(-5, 5)), Rat::int(r.int(-5, 5))));
             judge_f64(st, rng, CLASSES[class], &d, m1, m2);
             judge_cmplx(st, rng, CLASSES[class], &dc, m1, m2);
+            history_case(st, rng);
+            history_case(st, rng);
         }
     });
     let mut rep = Report::new(stats,
-        "all 385 triples (n,m1,m2), 1<=n<=10, 0<=m1,m2<n x 6 value classes (positive, mixed sign, negative diagonal, zero diagonal with nonzero sub-diagonal, tiny 2^-30 sub-diagonal under O(1) negative diagonal, zeros inside the band) x {Rat, CRat, f64, Complex<f64>} x two different padding fills, 3 (quick)/120 (thorough) random draws each; per case: every (i,j) access, B*v, det, solve, 18 arithmetic forms, fill_band for every band. Non-trivial: n>=2; distinct = distinct (type,class,triple,values) hashes");
+        "all 385 triples (n,m1,m2), 1<=n<=10, 0<=m1,m2<n x 6 value classes (positive, mixed sign, negative diagonal, zero diagonal with nonzero sub-diagonal, tiny 2^-30 sub-diagonal under O(1) negative diagonal, zeros inside the band) x {Rat, CRat, f64, Complex<f64>} x two different padding fills, 3 (quick)/120 (thorough) random draws each; per case: every (i,j) access, B*v, det, solve, 18 arithmetic forms, fill_band for every band. Plus random histories on one live object: det/solve/product queries interleaved with index writes, every compound assignment and fill_band, compared with the dense model after every step. Non-trivial: n>=2; distinct = distinct (type,class,triple,values) hashes");
     rep.assumptions = vec![
         "float data are integers/dyadics, so exact determinant, nonsingularity and kappa_inf come from the Rat/CRat model; solve/det demands only when kappa_inf <= 1e8".into(),
         "solve on exactly singular matrices is unconstrained".into(),
